@@ -136,6 +136,11 @@ impl<'s> FamVisitor for Runner<'s> {
                 reader.set_max_len(max_payload as u32 + 1);
                 obs.borrow_mut().fault(fk::max_len_knob);
             }
+            9 => {
+                // "no limit"
+                reader.set_max_len(u32::MAX);
+                obs.borrow_mut().fault(fk::max_len_knob);
+            }
             _ => {}
         };
         apply_knob(&mut reader, &self.obs);
@@ -617,7 +622,7 @@ fn generate_single(r: &mut Rng, tier: Tier) -> C15 {
         values,
         cut,
         init_buf: if let Some(n) = shape.roomy_init { n } else if r.chance(1, 3) { r.range(1, 300) as u32 } else { 0 },
-        max_len_mode: if r.chance(1, 4) { 1 + r.below(2) as u8 } else { 0 },
+        max_len_mode: if r.chance(1, 4) { 1 + r.below(2) as u8 } else if r.chance(1, 12) { 9 } else { 0 },
         use_ctx: r.chance(1, 8),
         rewrap_at: if r.chance(1, 6) { Some(r.below(nframes as u64 + 1) as u32) } else { None },
         knob_mid: if r.chance(1, 4) { Some(r.below(3) as u32) } else { None },
@@ -779,6 +784,8 @@ impl Property for P15 {
             let vals = vec![ValSpec { ty: Ty::Str, size: 3, seed: 7 }, spec_with_encoding_len(Ty::Str, (16 << 20) + 11), ValSpec { ty: Ty::Str, size: 3, seed: 8 }];
             out.push(C15 { src, caller: vec![Decide::Cancel], max_len_mode: 1, ..base(Ty::Str, vals) });
         }
+        // the 'no limit' setting
+        out.push(C15 { max_len_mode: 9, src: vec![Step::Xfer(1), Step::Pending, Step::Xfer(2)], caller: vec![Decide::Cancel], ..base(Ty::Str, fixed_values(Ty::Str, &[0, 5, 300])) });
         // more than 65536 frames through one reader (16-bit counters)
         out.push(base(Ty::U64, (0..65_700u64).map(|i| ValSpec { ty: Ty::U64, size: 0, seed: i }).collect()));
         let mut all: Vec<S15> = out.into_iter().map(S15::Single).collect();
